@@ -11,8 +11,8 @@ import (
 	"strings"
 	"sync"
 
-	"idenaverif/internal/engine"
 	"golang.org/x/tools/go/ssa"
+	"idenaverif/internal/engine"
 )
 
 type ssaFunc = ssa.Function
